@@ -41,7 +41,8 @@ def SOURCES():
 
 
 def jobs(tier):
-    js = [{"name": f"exact-{n}", "kind": "constr", "case": n} for n, cs in c06.CASES.items() if cs.exact]
+    heavy = set()
+    js = [{"name": f"exact-{n}", "kind": "constr", "case": n} for n, cs in c06.CASES.items() if cs.exact and n not in heavy]
     js += [{"name": f"exact-objective-{n}", "kind": "objective", "case": n} for n in c06.OBJECTIVES]
     js += [{"name": "vtype", "kind": "vtype"}]
     maxlen, maxw = (3, 4) if tier == "quick" else (4, 6)
@@ -295,6 +296,11 @@ def tower_callsites():
                 con, beta, scaled = k * rsome.power(e, 3) <= t, [1, 2], False
             elif kind == "power(5,2)":
                 con, beta, scaled = k * rsome.power(e, 5, 2) <= t, [2, 3], False
+            elif kind == "power-mixed[1,3]":
+                # exponent array mixing p == q (encoded as |.| by two linear rows) with p != q (a tower)
+                con, beta, scaled = k * rsome.power(e, np.array([1, 3])) <= t, [1, 2], False
+            elif kind == "power-mixed[(5,2),(2,2)]":
+                con, beta, scaled = k * rsome.power(e, np.array([5, 2]), np.array([2, 2])) <= t, [2, 3], False
             else:
                 con, beta, scaled = k * rsome.gmean(e, [1, 2]) >= t, [1, 2], False
             m.st(con)
@@ -323,7 +329,16 @@ def tower_callsites():
         calls = ns["calls"]
         kind = ns["kind"]
         terms = []
-        if kind.startswith("pnorm") or kind.startswith("power"):
+        if kind.startswith("power-mixed"):
+            if len(calls) != 1:
+                return False
+            j = 1 if kind == "power-mixed[1,3]" else 0
+            xx, rr, bb = calls[0]
+            if bb != ns["beta"] or rr.size != 2:
+                return False
+            terms.append(p_eq(views.flat(views.val(xx.to_affine(), X))[0], vin[j]))
+            _single_col(rr[0], "right0"), _single_col(rr[1], "right1")
+        elif kind.startswith("pnorm") or kind.startswith("power"):
             if len(calls) != 2:
                 return False
             for j, (xx, rr, bb) in enumerate(calls):
@@ -366,6 +381,13 @@ def tower_callsites():
             return p_implies(feas, p_and(p_le(aux2, tv), p_le(aux1[0] + aux1[1], aux2)))
         if kind.startswith("power"):
             t = []
+            if kind.startswith("power-mixed"):
+                # the p == q entry:  k*|in| <= t  must follow from the compiled rows alone
+                from ..sym import p_abs
+                j0 = 0 if kind == "power-mixed[1,3]" else 1
+                xs = ns["x"]
+                vin0 = ns["a"][j0] * X[xs.first + j0] + ns["b"][j0]
+                t.append(p_le(k * p_abs(vin0), tv))
             for _, rr, _b in calls:
                 a1, a2 = X[_single_col(rr[0], "r")], X[_single_col(rr[1], "r")]
                 # k*|in|^(p/q) <= t  is carried by  aux2 == 1  and  k*aux1 <= t
@@ -375,7 +397,7 @@ def tower_callsites():
         # k*gmean(in) >= t  is carried by  t <= -k*head  (the head ranges over [-gmean, gmean])
         return p_implies(feas, p_le(tv, -k * head))
 
-    for kind in ("pnorm3", "pnorm(5,2)", "power3", "power(5,2)", "gmean"):
+    for kind in ("pnorm3", "pnorm(5,2)", "power3", "power(5,2)", "power-mixed[1,3]", "power-mixed[(5,2),(2,2)]", "gmean"):
         obs, _ = check_function("rsome.socp:Model.do_math(primal)", make(kind), lambda ns: ns["F"],
                                 [post("tower-operands-are-the-scaled-argument-and-fresh-auxiliaries-with-documented-weights", operands),
                                  post("linear-rows-tie-the-tower-to-the-constraint-as-written", rows)],
